@@ -1286,6 +1286,43 @@ pub fn c17_special_members() {
     };
     check!(matches!(&got, Ok(v) if same(v, &want)), "every field / entry / element is kept with its own kind, null and zero members included");
 }
+/// C09: lists and maps are equal exactly when their elements / entries are - also when both operands are the same
+/// allocation (`x == x` on a variable, a value and its clone) and an element is not equal to itself (NaN).
+pub fn c09_container_self_equality() {
+    use cel_interpreter::objects::{Key, Map};
+    let (shape, payload, via): (u8, u8, u8) = (any(), any(), any());
+    crate::sym::assume(shape <= 3 && payload <= 1 && via <= 2);
+    let elem = if payload == 0 { Value::Float(f64::NAN) } else { Value::Int(3) };
+    let reflexive = payload == 1;
+    let mk_map = |v: Value| {
+        let mut m = std::collections::HashMap::new();
+        m.insert(Key::String(Arc::new("k".to_string())), v);
+        Value::Map(Map { map: Arc::new(m) })
+    };
+    let x = match shape {
+        0 => Value::List(Arc::new(vec![elem.clone()])),
+        1 => mk_map(elem.clone()),
+        2 => Value::List(Arc::new(vec![Value::Int(1), Value::List(Arc::new(vec![elem.clone()]))])),
+        _ => mk_map(Value::List(Arc::new(vec![elem.clone()]))),
+    };
+    let got: Result<Value, ExecutionError> = match via {
+        0 => Ok(Value::Bool(x == x.clone())),
+        1 => {
+            let mut ctx = Context::default();
+            ctx.add_variable_from_value("x", x.clone());
+            Program::compile("x == x").expect("compiles").execute(&ctx)
+        }
+        _ => {
+            let mut ctx = Context::default();
+            ctx.add_variable_from_value("x", x.clone());
+            Program::compile("x != x").expect("compiles").execute(&ctx).map(|v| match v {
+                Value::Bool(b) => Value::Bool(!b),
+                o => o,
+            })
+        }
+    };
+    check!(got == Ok(Value::Bool(reflexive)), "a list / map equals itself exactly when every element equals itself (NaN does not)");
+}
 /// C04 visitor half: a run of k prefix operators applies the operator k times (an even run cancels).
 pub fn c04_prefix() {
     let (op, k, operand): (u8, u8, u8) = (any(), any(), any());
@@ -1846,6 +1883,7 @@ crate::replay_only! {
     #[kani::unwind(2)] c06_skipped_undeclared: "off", "short-circuit operators, the conditional and macros over operands that name undeclared functions / variables, through Program::compile + execute", "ten programs";
     #[kani::unwind(2)] c04_macro_lookup: "off", "calls named like the macros in macro and non-macro shapes, with host functions registered under the macro names, through Program::compile + execute", "sixteen call shapes";
     #[kani::unwind(2)] c17_special_members: "off", "structs / struct variants / sequences / maps with None, unit, zero, false and empty members through to_value, exact key-set and kind comparison", "four shapes";
+    #[kani::unwind(2)] c09_container_self_equality: "off", "Value == Value and `x == x` / `x != x` through Program::compile + execute on lists and maps (nested) holding NaN or an int, both operands one allocation", "4 shapes x 2 payloads x 3 ways of asking";
     #[kani::unwind(2)] c12_literal: "off", "a string / bytes literal token through Program::compile + execute against an independent decoder of the CEL literal syntax", "token text of up to 24 characters taken from the vector";
     #[kani::unwind(2)] c13_string_roundtrip: "off", "int(string(x)) / uint(string(x)) / double(string(x)) through Program::compile + execute", "payload bits from the vector";
     #[kani::unwind(2)] c13_literal: "off", "int / uint literals of every sign, radix and magnitude through Program::compile + execute", "text built from the vector";
